@@ -980,4 +980,39 @@ class GenC01(FileGen):
         return super().p_map_new("osu", **kw)
 
 
-SCENARIOS = {"C01": GenC01, "C16": GenC16, "C14": GenC14, "C12": GenC12, "C08": GenC08, "C13": GenC13, "C15": GenC15}
+class GenC06(FileGen):
+    game = "qua"
+    write_games = ("qua",)
+    read_games = ("qua",)
+    table = dict(install_read=10, map_new=8, write=10, reread=6, chain=6, rate=1, stack=1, stack_time=1, time_arith=2,
+                 map_edit_list=2, map_deepcopy=1, convert=8, mapset_new=2)
+    games = ["qua", "qua", "osu", "bms", "sm", "o2j"]
+
+    def gen_doc(self, game):
+        from .gen_files import gen_qua_doc, gen_qua_fmt
+
+        return gen_qua_doc(self.d, self.hi + 2), gen_qua_fmt(self.d, self.s.knobs)
+
+    def p_mapset_new(self, game=None):
+        return super().p_mapset_new(game or self.r.choice(["sm", "o2j"]))
+
+    def p_convert(self, conv=None):
+        hs = [h for h in self.w.h.values() if h.kind in ("map", "mapset") and h.game != "qua" and self._rate_ok(h) and not h.meta.get("converted")]
+        if not hs:
+            return None
+        h = self.r.choice(hs)
+        cands = [c for c, spec in CONVERTERS.items() if spec[0] == h.game and spec[1] == h.kind and spec[2] == "qua"]
+        if not cands:
+            return None
+        return super().p_convert(conv=self.r.choice(cands)) if False else self._convert_op(h, self.r.choice(cands))
+
+    def _convert_op(self, h, c):
+        spec = CONVERTERS[c]
+        n = 1 if spec[3] in ("map", "mapset", "mapset_merged") else len(h.obj.maps)
+        op = self.mk("convert", conv=c, h=h.name, outs=[self.new_h() for _ in range(n)])
+        if spec[4]:
+            op["shift"] = self.r.choice([None, 0, 1, 2])
+        return op
+
+
+SCENARIOS = {"C01": GenC01, "C06": GenC06, "C16": GenC16, "C14": GenC14, "C12": GenC12, "C08": GenC08, "C13": GenC13, "C15": GenC15}
